@@ -38,7 +38,7 @@ ENV["RUSTFLAGS"] = (ENV.get("RUSTFLAGS", "") + " --cfg kira_verif").strip()
 
 KANI_BASE = ["cargo", "kani", "--no-default-features", "--lib", "-Z", "unstable-options", "-Z", "stubbing"] + os.environ.get("KV_EXTRA_KANI_ARGS", "").split()
 
-DEFAULT_TIMEOUT = {"quick": 300, "thorough": 1800}
+DEFAULT_TIMEOUT = {"quick": 600, "thorough": 1800}
 MEM_LIMIT_KB = int(os.environ.get("KV_MEM_KB", str(14 * 1024 * 1024)))
 
 
@@ -434,7 +434,7 @@ def main(argv):
     reg = load_registry()
     sel, files = [], []
     for path, target, hs in reg:
-        mine = [h for h in hs if (prop in h.props or h.kind == "gate")
+        mine = [h for h in hs if (prop in h.props or h.kind == "gate" or (prop == "ALL-THOROUGH-ONLY" and h.tier == "thorough"))
                 and (tier == "thorough" or h.tier == "quick")
                 and (only is None or only in h.name or h.kind == "gate")]
         if mine:
